@@ -1286,6 +1286,15 @@ func (run *simRun) probe(name string, args []interface{}) {
 		if ni := run.incOf(ld.Raft); ni != nil && !ni.dead && ni.obs.started {
 			run.led.onTransferExit(ni, ld, args[1].(transferLdr))
 		}
+	case "storage.clearLog:enter":
+		// an installed snapshot supersedes the log: what was acknowledged beyond the snapshot
+		// index is legitimately discarded with it
+		st := args[0].(*storage)
+		for _, n := range run.nodes {
+			if ni := n.inc; ni != nil && !ni.dead && ni.r != nil && ni.r.storage == st && ni.acked > st.snaps.index {
+				ni.acked, ni.ackedTerm = st.snaps.index, st.snaps.term
+			}
+		}
 	case "storage.removeGTE:enter":
 		// a leader made this node drop a conflicting suffix: what it had acknowledged
 		// beyond that point is legitimately gone
